@@ -234,7 +234,7 @@ type rgen struct {
 var rkeys = []string{"a", "b", "c", "k1", "", "x y", "0"}
 
 func (g *rgen) leaf() abs {
-	switch g.r.Intn(9) {
+	switch g.r.Intn(10) {
 	case 0:
 		return aNull()
 	case 1:
@@ -252,9 +252,18 @@ func (g *rgen) leaf() abs {
 	case 7:
 		// beyond TLC's small integers but inside int64: carried as a decimal record
 		return abs{"t": "int", "dec": absval.Dec(strconv.FormatInt(int64(1)<<40+int64(g.r.Intn(3)), 10))}
+	case 8:
+		// near neighbours beyond 2^53 and at the ends of int64 (base + off, see bigBases): float64 cannot tell them apart
+		return g.bigInt()
 	default:
 		return aInt(1)
 	}
+}
+
+var bigNames = []string{"p53", "n53", "p62", "max", "min"}
+
+func (g *rgen) bigInt() abs {
+	return abs{"t": "int", "big": bigNames[g.r.Intn(len(bigNames))], "off": g.r.Intn(4)}
 }
 
 func (g *rgen) tree(depth int) abs {
@@ -329,6 +338,15 @@ func (g *rgen) perturb(v abs, depth int) abs {
 	case "int":
 		if _, ok := v["v"]; ok && g.r.Intn(3) == 0 {
 			return aFlt(num(v["v"]), 0) // int <-> equal float
+		}
+		if b, ok := v["big"]; ok && g.r.Intn(4) != 0 {
+			// a near neighbour: one to three apart
+			off := int(num(v["off"]))
+			for {
+				if n := g.r.Intn(4); n != off {
+					return abs{"t": "int", "big": b, "off": n}
+				}
+			}
 		}
 	case "flt":
 		if q, ok := v["q"].([]any); ok && num(q[1]) == 0 && g.r.Intn(2) == 0 {
